@@ -189,9 +189,26 @@ func sanitize(s string) string {
 	return sb.String()
 }
 
+// fresh-name scopes: inside a specification-level call fresh symbols get names determined by the call
+// (function, arguments, heap), so evaluating the same call twice yields the same terms.
+var freshScopes []*freshScope
+
+type freshScope struct {
+	key string
+	n   int
+}
+
+func pushFreshScope(key string) { freshScopes = append(freshScopes, &freshScope{key: key}) }
+func popFreshScope()            { freshScopes = freshScopes[:len(freshScopes)-1] }
+
 // Fresh declared constant.
 func Fresh(prefix string, s *Sort) *Term {
 	prefix = sanitize(prefix)
+	if len(freshScopes) > 0 {
+		sc := freshScopes[len(freshScopes)-1]
+		sc.n++
+		return TS.intern(&Term{Op: "const", Name: fmt.Sprintf("%s@%s#%d", prefix, sc.key, sc.n), Sort: s})
+	}
 	TS.fresh[prefix]++
 	name := fmt.Sprintf("%s!%d", prefix, TS.fresh[prefix])
 	return TS.intern(&Term{Op: "const", Name: name, Sort: s})
@@ -686,6 +703,7 @@ func quoteSym(s string) string {
 // Script builds a self-contained SMT-LIB script checking satisfiability of the conjunction of asserts.
 type Script struct {
 	Asserts []*Term
+	Observe []*Term // extra terms whose model value is requested
 }
 
 func collect(t *Term, seen map[*Term]bool, order *[]*Term) {
@@ -816,6 +834,9 @@ func (sc *Script) Render(logic string, extraAxioms []*Term, wantModel bool) stri
 			if anyQ {
 				for _, c := range consts {
 					hc := heapConsts[c]
+					if hc.comp.Kind != "ref" && hc.comp.Kind != "sbase" {
+						continue // ranges of integers: ground instances only
+					}
 					var bound []*Term
 					cur := c
 					for cur.Sort.Kind == SArray {
@@ -905,6 +926,11 @@ func (sc *Script) Render(logic string, extraAxioms []*Term, wantModel bool) stri
 				if _, isLit := strLits[c]; !isLit {
 					vals = append(vals, quoteSym(c.Name))
 				}
+			}
+		}
+		for _, o := range sc.Observe {
+			if seen[o] {
+				vals = append(vals, o.inline(names))
 			}
 		}
 		if len(vals) > 0 {
